@@ -12,6 +12,7 @@ type Engine struct {
 	local        Mode
 	main         Mode
 	prefixed     inputrc.Bind
+	prefixedMain inputrc.Bind
 	active       inputrc.Bind
 	pending      []inputrc.Bind
 	skip         bool
